@@ -3,6 +3,7 @@ package xprotocol
 
 import (
 	"context"
+	"errors"
 
 	gometrics "github.com/rcrowley/go-metrics"
 	"mosn.io/api"
@@ -51,14 +52,18 @@ func (i *zzPInfo) Stats() *types.ClusterStats             { return i.st }
 
 type zzPHost struct {
 	types.Host
-	info *zzPInfo
-	hs   *types.HostStats
+	info  *zzPInfo
+	hs    *types.HostStats
+	world *zzPWorld
 }
 
 func (h *zzPHost) AddressString() string          { return "1.1.1.1:1" }
 func (h *zzPHost) ClusterInfo() types.ClusterInfo { return h.info }
 func (h *zzPHost) HostStats() *types.HostStats    { return h.hs }
 func (h *zzPHost) TLSHashValue() *types.HashValue { return nil }
+func (h *zzPHost) CreateConnection(ctx context.Context) types.CreateConnectionData {
+	return types.CreateConnectionData{Connection: h.world.zzNewConn(), Host: h}
+}
 
 type zzPStream struct {
 	str.BaseStream
@@ -83,18 +88,50 @@ type zzPConn struct {
 	id     uint64
 	ac     *activeClientPingPong
 	closed bool
+	// dial: 0 established, 1 refused (ConnectFailed), 2 timed out (ConnectTimeout)
+	dial      int
+	connected bool
+	listeners []api.ConnectionEventListener
+	client    *zzPClient
 }
 
 func (c *zzPConn) ID() uint64 { return c.id }
 func (c *zzPConn) Close(ccType api.ConnectionCloseType, ev api.ConnectionEvent) error {
 	if !c.closed {
 		c.closed = true
+		if !c.connected {
+			return nil // never established: network.connection.Close raises no event
+		}
 		c.ac.OnEvent(ev)
 	}
 	return nil
 }
-func (c *zzPConn) AddConnectionEventListener(api.ConnectionEventListener) {}
-func (c *zzPConn) Connect() error                                        { return nil }
+func (c *zzPConn) AddConnectionEventListener(l api.ConnectionEventListener) {
+	c.listeners = append(c.listeners, l)
+	if ac, ok := l.(*activeClientPingPong); ok {
+		c.ac = ac
+	}
+}
+
+// Connect behaves as network.clientConnection.Connect: the outcome is raised
+// synchronously as a connection event, then returned.
+func (c *zzPConn) Connect() error {
+	ev, err := api.Connected, error(nil)
+	switch c.dial {
+	case 1:
+		ev, err = api.ConnectFailed, zzErrPDial
+	case 2:
+		ev, err = api.ConnectTimeout, zzErrPDial
+	default:
+		c.connected = true
+	}
+	for _, l := range c.listeners {
+		l.OnEvent(ev)
+	}
+	return err
+}
+
+var zzErrPDial = errors.New("dial failed")
 
 type zzPClient struct {
 	str.Client
@@ -103,6 +140,8 @@ type zzPClient struct {
 }
 
 func (c *zzPClient) ConnID() uint64 { return c.conn.id }
+func (c *zzPClient) SetStreamConnectionEventListener(types.StreamConnectionEventListener) {}
+func (c *zzPClient) SetConnectionCollector(read, write gometrics.Counter)                 {}
 func (c *zzPClient) NewStream(ctx context.Context, r types.StreamReceiveListener) types.StreamSender {
 	st := &zzPStream{client: c, live: true, oneway: r == nil}
 	c.streams = append(c.streams, st)
@@ -117,19 +156,28 @@ type zzPWorld struct {
 	host    *zzPHost
 	clients []*zzPClient
 	leased  []*zzPStream
+	nextDial int
 }
 
-// zzDial models a completed dial as poolPingPong.newActiveClient accounts for it.
+// zzNewConn is what the host's CreateConnection returns: a connection whose
+// dial is established, refused or timed out.
+func (w *zzPWorld) zzNewConn() *zzPConn {
+	if w.nextDial < 0 {
+		w.nextDial = verif.Choose("dial_outcome", 3)
+	}
+	conn := &zzPConn{id: uint64(len(w.clients) + 1), dial: w.nextDial}
+	if conn.dial != 0 {
+		conn.closed = true // never established: not an open connection
+	}
+	conn.client = &zzPClient{conn: conn}
+	w.clients = append(w.clients, conn.client)
+	return conn
+}
+
+// zzDial: an established connection, created through the real newActiveClient.
 func (w *zzPWorld) zzDial() *activeClientPingPong {
-	conn := &zzPConn{id: uint64(len(w.clients) + 1)}
-	c := &zzPClient{conn: conn}
-	ac := &activeClientPingPong{pool: w.pool, codecClient: c, host: types.CreateConnectionData{Connection: conn}, state: Connected}
-	conn.ac = ac
-	w.clients = append(w.clients, c)
-	w.host.hs.UpstreamConnectionTotal.Inc(1)
-	w.host.hs.UpstreamConnectionActive.Inc(1)
-	w.info.st.UpstreamConnectionTotal.Inc(1)
-	w.info.st.UpstreamConnectionActive.Inc(1)
+	w.nextDial = 0
+	ac, _ := w.pool.newActiveClient(context.Background(), "zz")
 	return ac
 }
 
@@ -173,7 +221,8 @@ func (w *zzPWorld) zzCheck(maxReq uint64) {
 
 type zzCodec struct{ api.XProtocolCodec }
 
-func (zzCodec) ProtocolName() api.ProtocolName { return "zz" }
+func (zzCodec) ProtocolName() api.ProtocolName                 { return "zz" }
+func (zzCodec) NewXProtocol(context.Context) api.XProtocol { return nil } // no heartbeat
 
 // VerifC09_PingPongPool: the xprotocol ping-pong pool over short sequences of
 // two-way requests, completions, resets and connection closes.
@@ -186,11 +235,11 @@ func VerifC09_PingPongPool() {
 	base.host.Store(types.Host(host))
 	pool := NewPoolPingPong(base).(*poolPingPong)
 	w := &zzPWorld{pool: pool, info: info, host: host}
-	verif.Replace("(*mosn.io/mosn/pkg/stream/xprotocol.poolPingPong).newActiveClient", func(p *poolPingPong, ctx context.Context, proto api.ProtocolName) (*activeClientPingPong, types.PoolFailureReason) {
-		if verif.Choose("dial_fails", 2) == 1 {
-			return nil, types.ConnectionFailure
-		}
-		return w.zzDial(), ""
+	host.world = w
+	// environment boundary: the network connection the host creates (scripted dial
+	// outcome) and the codec client over it; the real newActiveClient runs
+	verif.Replace("mosn.io/mosn/pkg/stream.NewStreamClient", func(ctx context.Context, prot api.ProtocolName, connection types.ClientConnection, host types.Host) str.Client {
+		return connection.(*zzPConn).client
 	})
 	idle0 := verif.Choose("initial_idle", 3)
 	if maxConn > 0 && idle0 > int(maxConn) {
@@ -208,6 +257,7 @@ func VerifC09_PingPongPool() {
 			if len(pool.idleClients) == 0 {
 				verif.EngineOnly("NewStream would dial")
 			}
+			w.nextDial = -1 // decided when (and only if) a dial happens
 			ctx := variable.NewVariableContext(context.Background())
 			_, sender, _ := pool.NewStream(ctx, nil)
 			if sender != nil {
@@ -228,6 +278,7 @@ func VerifC09_PingPongPool() {
 				verif.EngineOnly("NewStream would dial: a real connection natively, a modelled dial under the engine")
 			}
 			idleBefore := len(pool.idleClients)
+			w.nextDial = -1 // decided when (and only if) a dial happens
 			ctx := variable.NewVariableContext(context.Background())
 			_, sender, reason := pool.NewStream(ctx, zzRecv{})
 			if sender != nil {
